@@ -107,7 +107,7 @@ func c11Mint(cn string, sans []string, salt string) *c11Minted {
 // c11Source is the scripted certificate source.
 type c11Source struct{ ch chan []tls.Certificate }
 
-func (s *c11Source) Certificates() chan []tls.Certificate  { return s.ch }
+func (s *c11Source) Certificates() chan []tls.Certificate   { return s.ch }
 func (s *c11Source) LoadClientCAs() (*x509.CertPool, error) { return nil, nil }
 
 // c11Publish hands a set to the TLSConfig goroutine and returns when it has been stored: the
